@@ -477,6 +477,50 @@ func TestModifiedRuleKeepsStatistics(t *testing.T) {
 	hx.Check(t, hx.N{Quick: 7500, Thorough: 80000}, func(t *rapid.T, c *hx.Case) {
 		t0 := hx.Epoch + uint64(rapid.IntRange(0, 999).Draw(t, "t0"))
 		hx.Reset(t0)
+		// the reload may also bring a NEW rule that can never block and is statistic-compatible with the modified one, listed
+		// after it or before it; the modified rule must keep its statistics either way
+		extra := rapid.SampledFrom([]string{"none", "none", "after", "before"}).Draw(t, "newCompatibleRule")
+		if extra == "before" && hx.Known("P30") {
+			// known finding P30: the loader hands the old statistics to the first statistic-compatible rule of the new list
+			extra = "after"
+			c.Excluded("P30")
+		}
+		c.ClassIf(extra != "none", "reload-also-adds-a-compatible-rule-"+extra)
+		flowList := func(r2 *flow.Rule) []*flow.Rule {
+			x := &flow.Rule{ID: "new", Resource: "a", Threshold: 1e9, StatIntervalInMs: r2.StatIntervalInMs}
+			switch extra {
+			case "after":
+				return []*flow.Rule{r2, x}
+			case "before":
+				return []*flow.Rule{x, r2}
+			}
+			return []*flow.Rule{r2}
+		}
+		cbList := func(r2 *cb.Rule) []*cb.Rule {
+			x := copyCb(r2)
+			x.Id, x.MinRequestAmount = "new", 1e9
+			switch extra {
+			case "after":
+				return []*cb.Rule{r2, x}
+			case "before":
+				return []*cb.Rule{x, r2}
+			}
+			return []*cb.Rule{r2}
+		}
+		hotList := func(r2 *hotspot.Rule) []*hotspot.Rule {
+			x := copyHot(r2)
+			x.ID, x.Threshold = "new", 1e9
+			if x.MetricType == hotspot.QPS && x.ControlBehavior == hotspot.Throttling {
+				x.Threshold = 1e6 // spacing 0 ms: never waits, never blocks
+			}
+			switch extra {
+			case "after":
+				return []*hotspot.Rule{r2, x}
+			case "before":
+				return []*hotspot.Rule{x, r2}
+			}
+			return []*hotspot.Rule{r2}
+		}
 		switch rapid.IntRange(0, 4).Draw(t, "module") {
 		case 0: // flow reject: window counts kept
 			T := rapid.IntRange(2, 6).Draw(t, "T")
@@ -497,9 +541,9 @@ func TestModifiedRuleKeepsStatistics(t *testing.T) {
 			}
 			r2 := &flow.Rule{Resource: "a", Threshold: float64(T2), StatIntervalInMs: I}
 			if rapid.Bool().Draw(t, "perRes") {
-				flow.LoadRulesOfResource("a", []*flow.Rule{r2})
+				flow.LoadRulesOfResource("a", flowList(r2))
 			} else {
-				flow.LoadRules([]*flow.Rule{r2})
+				flow.LoadRules(flowList(r2))
 			}
 			_, blk := sentinel.Entry("a")
 			want := k+1 > T2
@@ -525,9 +569,9 @@ func TestModifiedRuleKeepsStatistics(t *testing.T) {
 			r2.Threshold = float64(thr2)
 			r2.RetryTimeoutMs = 200
 			if rapid.Bool().Draw(t, "perRes") {
-				cb.LoadRulesOfResource("a", []*cb.Rule{r2})
+				cb.LoadRulesOfResource("a", cbList(r2))
 			} else {
-				cb.LoadRules([]*cb.Rule{r2})
+				cb.LoadRules(cbList(r2))
 			}
 			e, blk := sentinel.Entry("a")
 			if blk != nil {
@@ -555,9 +599,9 @@ func TestModifiedRuleKeepsStatistics(t *testing.T) {
 			r2 := copyHot(r)
 			r2.Threshold = T + int64(rapid.IntRange(1, 5).Draw(t, "more"))
 			if rapid.Bool().Draw(t, "perRes") {
-				hotspot.LoadRulesOfResource("a", []*hotspot.Rule{r2})
+				hotspot.LoadRulesOfResource("a", hotList(r2))
 			} else {
-				hotspot.LoadRules([]*hotspot.Rule{r2})
+				hotspot.LoadRules(hotList(r2))
 			}
 			_, blk := sentinel.Entry("a", sentinel.WithArgs("v"))
 			c.Op("hotspot T=%d drained for value v, threshold raised to %d -> next blocked=%v", T, r2.Threshold, blk != nil)
@@ -588,9 +632,9 @@ func TestModifiedRuleKeepsStatistics(t *testing.T) {
 			r2 := copyHot(r)
 			r2.Threshold = T2
 			if rapid.Bool().Draw(t, "perRes") {
-				hotspot.LoadRulesOfResource("a", []*hotspot.Rule{r2})
+				hotspot.LoadRulesOfResource("a", hotList(r2))
 			} else {
-				hotspot.LoadRules([]*hotspot.Rule{r2})
+				hotspot.LoadRules(hotList(r2))
 			}
 			e, blk := sentinel.Entry("a", sentinel.WithArgs("v"))
 			want := int64(k)+1 > T2
@@ -636,9 +680,9 @@ func TestModifiedRuleKeepsStatistics(t *testing.T) {
 			r2 := copyHot(r)
 			r2.Threshold = T + int64(rapid.IntRange(1, 5).Draw(t, "more"))
 			if rapid.Bool().Draw(t, "perRes") {
-				hotspot.LoadRulesOfResource("a", []*hotspot.Rule{r2})
+				hotspot.LoadRulesOfResource("a", hotList(r2))
 			} else {
-				hotspot.LoadRules([]*hotspot.Rule{r2})
+				hotspot.LoadRules(hotList(r2))
 			}
 			hx.C.AddMs(uint64(rapid.IntRange(0, 500).Draw(t, "dt"))) // far less than 10 s / threshold (>= 1.1 s)
 			_, blk := sentinel.Entry("a", sentinel.WithArgs("v"))
@@ -688,6 +732,26 @@ func TestP_RegressP12(t *testing.T) {
 		_, blk := sentinel.Entry("a", sentinel.WithArgs("v"))
 		c.Op("hotspot rule with nil SpecificItems reloaded as an identical fresh copy: changed=%v, third request blocked=%v", changed, blk != nil)
 		hx.Witness(t, "C14", "P12", "identical reload of a hotspot rule with nil SpecificItems (the loader mutated the stored rule) rebuilds the controller: token state lost / reload reports 'changed'", blk == nil || changed)
+		c.NonTrivial()
+	})
+}
+
+// P30 (known): a new statistic-compatible rule listed before the modified rule takes over its statistics.
+func TestP_KnownP30(t *testing.T) {
+	hx.Plain(t, func(c *hx.Case) {
+		hx.Reset(hx.Epoch)
+		flow.LoadRules([]*flow.Rule{{ID: "r", Resource: "a", Threshold: 2, StatIntervalInMs: 3000}})
+		if e, b := sentinel.Entry("a"); b == nil {
+			e.Exit()
+		}
+		// threshold 2 -> 1 (one token already in the 3 s window: the next request must be rejected), new inert rule first
+		flow.LoadRules([]*flow.Rule{{ID: "new", Resource: "a", Threshold: 1e9, StatIntervalInMs: 3000}, {ID: "r", Resource: "a", Threshold: 1, StatIntervalInMs: 3000}})
+		e, blk := sentinel.Entry("a")
+		if e != nil {
+			e.Exit()
+		}
+		c.Op("flow rule T=2 I=3000 with one token in its window; reload [new inert compatible rule, same rule with T=1]; next request blocked=%v", blk != nil)
+		hx.Witness(t, "C14", "P30", "flow rule (T=2, 3 s window, one token used) modified to T=1 in a reload that lists a new statistic-compatible rule before it: the next request is admitted, the modified rule lost its window to the new rule (same in circuitbreaker and hotspot)", blk == nil)
 		c.NonTrivial()
 	})
 }
